@@ -328,6 +328,15 @@ class Ref:
             if not ok:
                 return
         x.demands.append(Demand(due, [cause]))
+        # C10 applied to the step that is now known to be outstanding: no simulator feeding X may already have begun a later step
+        if self.on('C10') and self.lazy:
+            for c in self.conns:
+                if c.ds == x.sid and c.ss != x.sid and not c.async_only:
+                    p = self.sims[c.ss]
+                    for st in p.done:
+                        lim = self.shift(c, st.tau, plain=True)
+                        self.check('C10', b_not(b_and(lex_lt(due, lim), due[0] < self.until)), 'C10.runahead',
+                                   lambda: f'{x.sid} has to step at {fmt(due)} ({self._cz(cause)}) but its producer {c.ss} has already begun {fmt(st.tau)}')
         # C01, second sentence, applied to the step that is now known to be required: X will have to step at `due`, so no
         # simulator it feeds may already have begun a step at or after the delayed output time of that step
         if self.on('C01'):
